@@ -107,9 +107,38 @@ def countdown_program(rng, pid):
     return {"id": pid, "vars": vars_, "kinds": ["int"] * 4, "nv": 4, "funcs": funcs, "init": [], "recursive": True}
 
 
+def mutual_program(rng, pid):
+    """directed family: MUTUAL recursion f1 -> f2 -> f1 (a call-graph cycle of length 2: only one of the two is the head
+    of the cycle, the other is analysed while the head's fixpoint is still iterating)
+       main: k := c; res := f1(k)
+       f1(n) -> r: if (*  or  n <= 0) then r := a else { t := f2(n); r := t + d }
+       f2(m) -> s: u := m - dec; s := f1(u)          dec in {0, 1}: with 0 the entry of f2 repeats in every iteration"""
+    vars_ = [{"n": NAMES[i], "t": "int"} for i in range(4)]
+    X, Y, Z, W = 1, 2, 3, 4
+    c = rng.choice([1, 2, 2])
+    a, d = rng.randint(-1, 1), rng.choice([1, 1, 0])
+    dec = rng.choice([0, 0, 1])
+    guarded = dec == 1 or rng.random() < 0.3
+    le = lambda k, t=(): {"k": k, "t": [list(u) for u in t]}
+    g = {"e": le(0, [(1, X)]), "r": "le"}                      # n <= 0
+    base = ([{"op": "assume", "c": g}] if guarded else []) + [{"op": "assign", "x": Y, "e": le(a)}]
+    rec = ([{"op": "assume", "c": negate(g)}] if guarded else []) + [
+        {"op": "call", "fn": "f2", "lhs": [W], "args": [X]},
+        {"op": "arith", "f": "add", "x": Y, "y": W, "zk": 1, "z": d}]
+    f1_blocks = [{"succ": [2, 3], "stmts": []}, {"succ": [4], "stmts": base}, {"succ": [4], "stmts": rec}, {"succ": [], "stmts": []}]
+    f2_blocks = [{"succ": [], "stmts": [{"op": "arith", "f": "sub", "x": Z, "y": X, "zk": 1, "z": dec},
+                                        {"op": "call", "fn": "f1", "lhs": [Y], "args": [Z]}]}]
+    main_blocks = [{"succ": [2], "stmts": [{"op": "assign", "x": Z, "e": le(c)}, {"op": "call", "fn": "f1", "lhs": [W], "args": [Z]}]},
+                   {"succ": [], "stmts": [{"op": "assert", "c": hist.cst(rng, [W, Z], rels=("le", "lt", "eq", "ne")), "id": 1}]}]
+    funcs = [{"name": "main", "in": [], "out": [], "entry": 1, "exit": 2, "blocks": main_blocks},
+             {"name": "f1", "in": [X], "out": [Y], "entry": 1, "exit": 4, "blocks": f1_blocks},
+             {"name": "f2", "in": [X], "out": [Y], "entry": 1, "exit": 1, "blocks": f2_blocks}]
+    return {"id": pid, "vars": vars_, "kinds": ["int"] * 4, "nv": 4, "funcs": funcs, "init": [], "recursive": True}
+
+
 def program(rng, pid):
     if rng.random() < 0.12:
-        return countdown_program(rng, pid)
+        return countdown_program(rng, pid) if rng.random() < 0.5 else mutual_program(rng, pid)
     ints = [1, 2, 3, 4]
     vars_ = [{"n": NAMES[i - 1], "t": "int"} for i in ints]
     nf = rng.choice([1, 2, 2, 3])
